@@ -2439,9 +2439,11 @@ class Mailbox:
                 # If we did a FETCH FLAGS and the message was in the
                 # 'Recent' sequence then remove it from the 'Recent'
                 # sequence. Only one client gets to actually see that a
-                # message is 'Recent.'
+                # message is 'Recent.' (But not a client that has the mailbox
+                # open read-only: EXAMINE must not cause messages to lose
+                # `\Recent`.)
                 #
-                if fetched_flags:
+                if fetched_flags and not read_only:
                     if msg_key in self.sequences["Recent"]:
                         no_longer_recent_msgs.add(msg_key)
 
